@@ -108,10 +108,11 @@ theorem Far.lt {cfg : Config} {buf : Bytes} {v p : Nat} {Z : List Bytes} (F : Fa
 
 /-- how far the two `last_line_visited` may be apart: equal up to the shift, or -- when `Core::roll`
 has reset the reader's -- both at least `max_context + 1` whole lines (the same ones) behind the
-position `p` -/
+position `p`; without context lines the value is never looked at -/
 def XRel (cfg : Config) (B w : Bytes) (d : Nat) (s1 s2 : Core) (p : Nat) : Prop :=
   s1.lastLineVisited = s2.lastLineVisited + d ∨
     (s2.lastLineVisited = 0 ∧
-      ∃ Z, Far cfg w s2.lastLineVisited p Z ∧ Far cfg B s1.lastLineVisited (p + d) Z)
+      ∃ Z, Far cfg w s2.lastLineVisited p Z ∧ Far cfg B s1.lastLineVisited (p + d) Z) ∨
+    cfg.maxContext = 0
 
 end RgVerif.Searcher
